@@ -253,8 +253,11 @@ def queries(case, ctx, c, singles, lists, phase=""):
         ctx.count("cmp:levelize_rejects_cyclic")
         if ok or not isinstance(r, ValueError):
             viol("levelize_cyclic", f"levelize on a cyclic circuit gave {r!r} instead of ValueError")
+    elif undriven and not ok:
+        ctx.count("skipped:levelize_undriven")  # the pinned levelize refuses circuits with a gate that has no fan-in
     elif undriven:
-        ctx.count("skipped:levelize_undriven")
+        # it answered: a gate without fan-in is a source of the graph (level 0)
+        cmp("levelize_with_undriven_gate", dict(r), D.levels(preds))
     elif not ok:
         viol("levelize", f"levelize raised {r!r} on an acyclic lint-clean circuit")
     else:
